@@ -3,6 +3,7 @@ import GstVerif.Poly.Driver
 import GstVerif.Db.Driver
 import GstVerif.LinAlg.Driver
 import GstVerif.Krig.Driver
+import GstVerif.Rng.Driver
 /-
   gstmodel: line-protocol driver.  One request per input line:
       <model> <op> <args…> => <implementation's answer…>
@@ -23,6 +24,7 @@ def dispatch (line : String) : String :=
   | "d" :: args => Db.handle args impl
   | "m" :: args => LinAlg.handle args impl
   | "k" :: args => Krig.handle args impl
+  | "r" :: args => Rng.handle args impl
   | _ => "bad-op"
 
 partial def loop (h : IO.FS.Stream) (out : IO.FS.Stream) : IO Unit := do
